@@ -45,7 +45,26 @@ def _install_adjustments():
         return _orig_format(obj, format_spec)
     if _orig_format is not None:
         core._PATCH_REGISTRATIONS[format] = _opaque_format
-    # (repr()/str() of symbolic ints keep CrossHair's symbolic-string model: JSON encoding depends on them.)
+    # repr() of a symbolic int is also opaque (a C-level repr of a container holding one must get a real str, else
+    # TypeError), but the explicit conversions keep CrossHair's symbolic-string model: str(n), and int.__repr__(n)
+    # as used by the JSON encoder.
+    _orig_int_repr = _bl.SymbolicInt.__repr__
+    _bl.SymbolicInt.__str__ = _orig_int_repr
+    _bl.SymbolicInt.__repr__ = lambda self: '<num>'
+    _bl.SymbolicFloat.__repr__ = lambda self: '<num>'
+    _bl.RealBasedSymbolicFloat.__repr__ = lambda self: '<num>'
+    from crosshair.tracers import NoTracing as _NT
+    _native_int_repr = int.__repr__
+
+    def _int_repr(x):
+        with _NT():
+            symbolic = isinstance(x, _bl.SymbolicInt)
+            if not symbolic and not hasattr(x, '__ch_pytype__'):
+                return _native_int_repr(x)
+        if symbolic:
+            return _orig_int_repr(x)
+        return x.__repr__()
+    core._PATCH_REGISTRATIONS[int.__repr__] = _int_repr
     import crosshair.statespace as ss
 
     stats = {'queries': 0, 'solver_s': 0.0, 'unknown': 0, 'realizations': 0}
@@ -148,7 +167,7 @@ def check(spec):
     wall = time.time() - t0
     out = {'paths': counter.get('num_paths', 0), 'harness_calls': vkopf.PATHS,
            'nontrivial_paths': vkopf.NONTRIVIAL_PATHS, 'tags': dict(vkopf.TAG_COUNTS),
-           'wall_s': round(wall, 2), **{k: (round(v, 3) if isinstance(v, float) else v) for k, v in stats.items()}}
+           'wall_s': round(wall, 2), 'cpu_s': round(time.process_time(), 1), **{k: (round(v, 3) if isinstance(v, float) else v) for k, v in stats.items()}}
     states = {m.state for m in msgs}
     text = ' | '.join(f'{m.state.name}: {m.message}' for m in msgs)
     out['message'] = text[:2000]
